@@ -56,6 +56,7 @@ Inductive extra :=
 | XTokens (m : list (bytes * list bytes))        (* analysed tokens of every text value that occurs *)
 | XF32s (bucket key : bytes) (vals : list N)       (* a float32 array persisted under a reserved key (thresholds, centroids) *)
 | XOracle (qi : N) (dists : list (bytes * N))      (* for request number qi: harness-side float64 reference distance (bits) per candidate id *)
+| XLogs (l : list (N * N * N))                     (* (corpus size, document frequency, float64 bits of log10(size/(df+1))) *)
 | XNote (n : N).
 
 Record step := mkStep {
